@@ -162,15 +162,31 @@ func (c *Ctx) ValidateTrace(module string, ps []*prog.Program, runs map[int][]dr
 			if rec.Vars == nil {
 				rec.Vars = map[string]int{}
 			}
+			if rec.Fids == nil {
+				rec.Fids = []string{}
+			}
 			enc.Encode(rec)
 			n++
 		}
 	}
 	f.Close()
+	acc, fails, res, err := c.runTraceSpec(dir, module, fmt.Sprintf("  ProgFile = %q\n", progFile)+extraCfg, traceFile, n)
+	if err != nil {
+		return nil, nil, res, err
+	}
+	c.States += res.Distinct
+	c.Transitions += res.Generated
+	c.TracesValidated += len(idx)
+	return acc, fails, res, nil
+}
+
+// runTraceSpec runs a trace specification (TraceSpec / Report convention) over
+// an ndjson trace file with n lines.
+func (c *Ctx) runTraceSpec(dir, module, constants, traceFile string, n int) (map[int]bool, map[int]Failure, TLCResult, error) {
 	outFile := filepath.Join(dir, "out.json")
 	os.Remove(outFile)
-	cfg := fmt.Sprintf("SPECIFICATION TraceSpec\nCONSTANTS\n  ProgFile = %q\n  TraceFile = %q\n  OutFile = %q\n%s\nPOSTCONDITION Report\nCHECK_DEADLOCK FALSE\n",
-		progFile, traceFile, outFile, extraCfg)
+	cfg := fmt.Sprintf("SPECIFICATION TraceSpec\nCONSTANTS\n  TraceFile = %q\n  OutFile = %q\n%s\nPOSTCONDITION Report\nCHECK_DEADLOCK FALSE\n",
+		traceFile, outFile, constants)
 	res, err := RunTLC(dir, module, cfg, TLCOpts{Workers: 1, Timeout: 30 * time.Minute, Xss: "512m"})
 	if err != nil {
 		return nil, nil, res, err
@@ -211,8 +227,5 @@ func (c *Ctx) ValidateTrace(module string, ps []*prog.Program, runs map[int][]dr
 			fails[fl.Run] = fl
 		}
 	}
-	c.States += res.Distinct
-	c.Transitions += res.Generated
-	c.TracesValidated += len(idx)
 	return acc, fails, res, nil
 }
